@@ -9,7 +9,7 @@ CHECKS = {
              text="63 configurations (8 probe kinds + nidq, both metadata encodings, sorted/unsorted, bin/cbin, AP/LF, non-identity site order, non-uniform gains) x every int / slice (start, stop in [-n-1, n+1], steps +-1..3) / list selector pair of a 4-sample recording are read through the real Reader and compared with NumPy indexing of the reference calibrated, permuted array; thorough runs the full product (98M reads), quick the full x core and core x full products on primary configurations.",
              note="layout decided with one separating content (the gather does not branch on values); values decided by running all 65536 int16 values through every gain class; 1.5 float32 ulp tolerance", ref="3/C01"),
  "C02": dict(engine="E1+E2", technique="exhaustive slice enumeration on cbin vs bin readers; explicit-state BFS over compress/decompress histories on a real directory with a crash injected before every deviation point",
-             text="E1: every (channels 2/3/17/385, samples 1..3c+1, content) recording is compressed with an 8-sample chunk and every slice (all start/stop in [-ns-1, ns+1], steps 1,2,3,-1), int and channel selector is compared between the compressed and the uncompressed reader; compress then decompress must reproduce the bytes; all 3x3 combinations of files on disk x path handed to the reader must resolve to the recording. E2: breadth-first search over histories (length <= 4, <= 2 crashes; thorough 6/3) of compress_file / decompress_file (keep_original T/F) / decompress_to_scratch (in place / scratch dir), each fault free or killed before every filesystem mutation, per-chunk call or post-check; in every directory state the recording must be recoverable, every file named .cbin (and the scratch .bin) complete, and an interrupted compression / scratch decompression must leave its source untouched.",
+             text="E1: every (channels 2/3/17/385, samples 1..3c+1, content) recording is compressed with an 8-sample chunk and every slice (all start/stop in [-ns-1, ns+1], steps 1,2,3,-1,-2,-3), int and channel selector is compared between the compressed and the uncompressed reader; compress then decompress must reproduce the bytes; all 3x3 combinations of files on disk x path handed to the reader must resolve to the recording. E2: breadth-first search over histories (length <= 4, <= 2 crashes; thorough 6/3) of compress_file / decompress_file (keep_original T/F) / decompress_to_scratch (in place / scratch dir), each fault free or killed before every filesystem mutation, per-chunk call or post-check; in every directory state the recording must be recoverable, every file named .cbin (and the scratch .bin) complete, and an interrupted compression / scratch decompression must leave its source untouched.",
              note="crash = BaseException raised before the operation; torn writes inside one OS write are not modelled; mtscomp single-threaded", ref="3/C02"),
  "C03": dict(engine="E1", technique="exhaustive enumeration of all int16 values x gain settings, all 4^6 shank maps, and a (window, length) box around every window seam",
              text="A recording in which every channel runs through all 65536 int16 values is split for 9 (range, max-int) settings x 2 probe types and every shank file is compared byte for byte with the original columns (+sync), with and without the integrity post-check; all 4096 assignments of six sites to four shanks are split, checked and reassembled with NP2Reconstructor (bytes by sha1, metadata field by field); window sizes 588..1200 x recording lengths around every window seam; compressed source, compressed shank files and compressed reconstruction.",
